@@ -124,6 +124,7 @@ func DeriveSessionKey(sharedSecret [KeySize]byte, streamID uint64,
 		panic(fmt.Sprintf("HKDF failed: %v", err))
 	}
 
+	verifDerived(sk, streamID)
 	return sk
 }
 
